@@ -27,8 +27,21 @@ import (
 //verif:override (github.com/cosmos/cosmos-sdk/x/staking/keeper.Keeper).BondDenom -> c09BondDenom
 //verif:override github.com/cosmos/cosmos-sdk/telemetry.IncrCounter -> c09Incr
 
-func c09Bonded(k stakingkeeper.Keeper, ctx sdk.Context, d sdk.AccAddress) sdkmath.Int    { return sdk.ZeroInt() }
-func c09Unbonding(k stakingkeeper.Keeper, ctx sdk.Context, d sdk.AccAddress) sdkmath.Int { return sdk.ZeroInt() }
+// the staking module's view of who has what at stake (absent = nothing)
+var c09Stake struct{ bonded, unbonding map[string]sdkmath.Int }
+
+func c09Bonded(k stakingkeeper.Keeper, ctx sdk.Context, d sdk.AccAddress) sdkmath.Int {
+	if v, ok := c09Stake.bonded[string(d)]; ok {
+		return v
+	}
+	return sdk.ZeroInt()
+}
+func c09Unbonding(k stakingkeeper.Keeper, ctx sdk.Context, d sdk.AccAddress) sdkmath.Int {
+	if v, ok := c09Stake.unbonding[string(d)]; ok {
+		return v
+	}
+	return sdk.ZeroInt()
+}
 func c09BondDenom(k stakingkeeper.Keeper, ctx sdk.Context) string                        { return "aISLM" }
 func c09Incr(val float32, keys ...string)                                               {}
 
@@ -121,6 +134,7 @@ func c09Released(start int64, ps sdkvesting.Periods, t int64) sdkmath.Int {
 }
 
 func c09World(now int64) (Keeper, sdk.Context, *c09AK, *c09Bank) {
+	c09Stake.bonded, c09Stake.unbonding = nil, nil
 	env := zz.NewEnv([]string{"vesting"}, nil)
 	ctx := env.Ctx.WithBlockTime(time.Unix(now, 0))
 	ak := &c09AK{accs: map[string]authtypes.AccountI{}}
@@ -347,5 +361,75 @@ func VerifC09_BalancesQuery() {
 	zz.Assert(res.Locked.AmountOf("aISLM").Equal(ov.Sub(unlocked)), "locked = original - lockup periods ended by the block time (locked + unlocked = original)")
 	zz.Assert(res.Vested.AmountOf("aISLM").Equal(vested), "vested = vesting periods ended by the block time")
 	zz.Assert(res.Unvested.AmountOf("aISLM").Equal(ov.Sub(vested)), "unvested = original - vested")
+	zz.Reach("end")
+}
+
+
+// VerifC08_ScheduleTracksOwnStake: the locked amount is max(original - unlockedVested - trackedDelegated, unvested), and
+// trackedDelegated is set when a schedule is applied to an account that already exists: to what that account itself has
+// bonded and unbonding at that moment - not to anybody else's stake (the funder signs the message and has stake of its own).
+// A tracked delegation nobody will ever undelegate frees the same amount of vested-but-locked coins for good.
+func VerifC08_ScheduleTracksOwnStake() {
+	now := zz.AnyInt64In("now", 0, c09MaxStart+3*c09MaxLen)
+	k, ctx, ak, _ := c09World(now)
+	own := [2]sdkmath.Int{zz.AnyAmount("account.bonded", 100), zz.AnyAmount("account.unbonding", 100)}
+	fun := [2]sdkmath.Int{zz.AnyAmount("funder.bonded", 100), zz.AnyAmount("funder.unbonding", 100)}
+	c09Stake.bonded = map[string]sdkmath.Int{string(c09Acc): own[0], string(c09Funder): fun[0]}
+	c09Stake.unbonding = map[string]sdkmath.Int{string(c09Acc): own[1], string(c09Funder): fun[1]}
+	base := authtypes.NewBaseAccountWithAddress(c09Acc)
+	merge := zz.AnyBool("targetIsVestingAccount")
+	if merge {
+		va, _ := c09Account("acc", 1, 1)
+		va.BaseAccount = base
+		ak.accs[string(c09Acc)] = va
+	} else {
+		ak.accs[string(c09Acc)] = &ethtypes.EthAccount{BaseAccount: base, CodeHash: common.Hash{}.Hex()}
+	}
+	s1 := zz.AnyInt64In("grant.start", 0, c09MaxStart)
+	glk := c09Periods("grant.lock", 1)
+	gvs := c09Periods("grant.vest", 1)
+	g := glk.TotalAmount()
+	zz.Assume(gvs.TotalAmount().AmountOf("aISLM").Equal(g.AmountOf("aISLM")))
+	zz.Assume(g.AmountOf("aISLM").IsPositive())
+	_, _, _, err := k.ApplyVestingSchedule(ctx, c09Funder, c09Acc, g, time.Unix(s1, 0), glk, gvs, merge)
+	if err != nil {
+		zz.Reach("?refused")
+		return
+	}
+	after, ok := ak.accs[string(c09Acc)].(*types.ClawbackVestingAccount)
+	zz.Assert(ok, "the account is a clawback vesting account afterwards")
+	if ok {
+		tracked := after.DelegatedFree.AmountOf("aISLM").Add(after.DelegatedVesting.AmountOf("aISLM"))
+		zz.ObserveInt("trackedDelegated", tracked)
+		zz.Assert(tracked.Equal(own[0].Add(own[1])), "the delegation tracked on the account is exactly what the account itself has bonded and unbonding")
+	}
+	zz.Reach("end")
+}
+
+// VerifC08_ConvertBackKeepsLockup: MsgConvertVestingAccount turns a clawback vesting account back into a plain account and
+// drops its schedules. It is accepted only once nothing is unvested and the lockup schedule itself holds nothing back any
+// more - whatever the account has delegated in the meantime (delegated coins come back when they are unbonded; without the
+// schedule they would be free long before the unlock time).
+func VerifC08_ConvertBackKeepsLockup() {
+	now := zz.AnyInt64In("now", 0, c09MaxStart+3*c09MaxLen)
+	k, ctx, ak, _ := c09World(now)
+	va, _ := c09Account("acc", 2, 2)
+	va.DelegatedFree = sdk.NewCoins(sdk.NewCoin("aISLM", zz.AnyAmount("delegatedFree", 100)))
+	va.DelegatedVesting = sdk.NewCoins(sdk.NewCoin("aISLM", zz.AnyAmount("delegatedVesting", 100)))
+	ak.accs[string(c09Acc)] = va
+	lockedUp := va.GetLockedUpCoins(time.Unix(now, 0)).AmountOf("aISLM")
+	unvested := va.GetVestingCoins(time.Unix(now, 0)).AmountOf("aISLM")
+	_, err := k.ConvertVestingAccount(sdk.WrapSDKContext(ctx), types.NewMsgConvertVestingAccount(c09Acc))
+	if err != nil {
+		_, still := ak.accs[string(c09Acc)].(*types.ClawbackVestingAccount)
+		zz.Assert(still, "a refused conversion leaves the vesting account in place")
+		zz.Reach("?refused")
+		return
+	}
+	zz.Assert(lockedUp.IsZero(), "a vesting account is converted back into a plain account only when its lockup schedule holds nothing back any more, whatever it has delegated")
+	zz.Assert(unvested.IsZero(), "a vesting account is converted back into a plain account only when nothing is unvested")
+	_, still := ak.accs[string(c09Acc)].(*types.ClawbackVestingAccount)
+	zz.Assert(!still, "after the conversion the account is a plain account")
+	zz.Reach("converted")
 	zz.Reach("end")
 }
